@@ -1,6 +1,6 @@
 """C18 - GF(2) routines (one clause: well-typed empty kernel; inputs not mutated)."""
 from ..rules_flow import Flow
-from ..rules_k import E1_typed_empties, E1_kernel_shape, K17_elimination_bounds, K17_column_sweep, K18_dimension_formula, K19_mod2_updates
+from ..rules_k import E1_typed_empties, E1_kernel_shape, K17_elimination_bounds, K17_column_sweep, K18_dimension_formula, K19_mod2_updates, K19b_no_reinterpretation
 from ..rules_alias import A4_params
 
 FQS = ["f2_algebra.rref", "f2_algebra.rref_and_basis_change", "f2_algebra.rank", "f2_algebra.null_space"]
@@ -16,6 +16,7 @@ def run(tree, rep, tier):
     K17_column_sweep(rep, flow)
     K18_dimension_formula(rep, flow)
     K19_mod2_updates(rep, flow)
+    K19b_no_reinterpretation(rep, flow)
     rep.rules["A4"]["floor"] = 4
     rep.trusted += ["N1"]
     rep.decided += ["the null-space routine returns an integer-typed two-dimensional (k, cols) array also for k = 0 (E1)", "rref, rref_and_basis_change, rank, null_space never mutate their argument (A4)",
